@@ -1,7 +1,7 @@
 (* Entry.v — single extracted entry point [run]: request = VList [VStr name; arg].
    All marshalling is done here in Gallina so that ocaml/driver.ml stays generic. *)
 From Coq Require Import ZArith List Bool String Ascii.
-From Verif Require Import PyStr Normalize NormalizeGen Util UtilGen Toc TocGen Footnote FootnoteGen Cli CliGen StoreGen Rx UnicodeGen RxGen Scanner RefLinks Tmpl HtmlRender TmplGen.
+From Verif Require Import PyStr Normalize NormalizeGen Util UtilGen Toc TocGen Footnote FootnoteGen Cli CliGen StoreGen Rx UnicodeGen RxGen Scanner RefLinks Tmpl HtmlRender TmplGen CodeSpan.
 Import ListNotations.
 Open Scope Z_scope.
 
@@ -164,6 +164,8 @@ Definition run_named (name : str) (arg : pval) : pval :=
     | _ => VErr "arg" end
   else if is_name name "safe_url" then
     match arg with VStr u => VStr (safe_url harmful_protocols good_data_protocols escape_ops u) | _ => VErr "arg" end
+  else if is_name name "codespan_text" then
+    match arg with VStr s => VStr (codespan_text T s) | _ => VErr "arg" end
   else VErr "unknown function".
 
 Definition run (req : pval) : pval :=
